@@ -13,13 +13,14 @@ THEOREMS = ["Genql.C13." + t for t in [
     "no_deadlock_single_lock", "cache_is_parse_graph", "execReader_no_deadlock"]] + \
     ["Genql.Obligations.C13." + t for t in [
         "execReader_well_locked", "cache_only_in_execReader", "execReader_race_free", "parallel_join_well_locked",
-        "parallel_hash_join_well_locked", "vars_well_locked", "registries_init_only", "package_vars_users", "sub_packages_stateless"]]
+        "parallel_hash_join_well_locked", "vars_well_locked", "registries_init_only", "package_vars_users", "sub_packages_stateless", "cached_parse_results_never_written"]]
 TRUSTED = ["the Go memory model and scheduler are not formalised: a theorem cannot exhibit a race; races are only *searched* with "
            "the race detector", "the go/ast fact extractor (lock/unlock/access paths of ExecReader, PARALLEL join workers, GETVAR/SETVAR; "
            "writers of package-level variables)"]
 RULE = ("proof part: protocol theorems + obligations on the instruction paths regenerated from the source; exploration part (labelled "
         "as such): a -race build of the runner executes 2-16 goroutines over separate and shared documents, fresh and cached selector "
-        "texts, PARALLEL joins and ASYNC/SPINASYNC functions, each result compared with its stand-alone result; observations = race "
+        "texts (also the SAME open-range / each selector text over separate documents of different shapes), PARALLEL joins and "
+        "ASYNC/SPINASYNC functions, each result compared with its stand-alone result = the result of a process that ran nothing else; observations = race "
         "reports, fatal errors, timeouts, cross-talk; non-trivial = >=2 executions overlapped in time (measured)")
 
 
@@ -71,7 +72,41 @@ def workloads(rnd, tier):
     # wrapped + many goroutines on the cache path only
     out.append({"docs": [enc_val(doc)], "queries": [{"doc": 0, "sql": "SELECT a FROM `root.t`", "wrapped": True}],
                 "selectors": ["t[0].k%d", "u.m%d", "meta[each].v%d", "x%d.y%d"], "goroutines": 2 * g, "repeat": 40 if tier == "quick" else 300})
+    # separate documents of DIFFERENT shapes under the same selector texts with open ranges / each: whatever the process-wide
+    # cache holds for a text must serve every document (a cached parse result is shared by all of them)
+    def shaped(n):
+        return {"t": [{"k": i, "a": i % 3, "items": [{"x": j} for j in range((i + n) % 4)]} for i in range(n)],
+                "u": [{"m": i} for i in range(max(1, 7 - n))]}
+    sdocs = [shaped(n) for n in (3, 6, 2, 8)]
+    squeries = ["SELECT k FROM `t[(1:end)]`", "SELECT k FROM `t[(begin:2)]`", "SELECT k, `items[(0:end)]` AS it FROM t",
+                "SELECT `t[(1:end)].k` AS ks, `u[(begin:end)].m` AS ms FROM dual", "SELECT x FROM `t[each].items[(0:end)]`",
+                "SELECT k FROM t WHERE k IN (SELECT x FROM `items[(0:end)]`)"]
+    out.append({"docs": [enc_val(d) for d in sdocs],
+                "queries": [{"doc": i % 4, "sql": q} for q in squeries for i in range(4)], "selectors": ["t[(1:end)].k", "t[each].items[(0:end)]"],
+                "goroutines": g, "repeat": 4 if tier == "quick" else 20})
     return out
+
+
+def alone_expectations(runner, w):
+    """each query of the workload once, in a process of its own: the stand-alone result (nothing cached, nothing shared)"""
+    from concurrent.futures import ThreadPoolExecutor
+    def one(q):
+        req = {"id": 0, "op": "alone", "args": {"doc": w["docs"][q["doc"]], "q": q}}
+        try:
+            p = subprocess.run([runner], input=(json.dumps(req) + "\n").encode(), stdout=subprocess.PIPE, stderr=subprocess.PIPE,
+                               env=dict(os.environ, GORACE="halt_on_error=0 exitcode=66", GOMEMLIMIT="2GiB"), timeout=120)
+            o = [json.loads(l) for l in p.stdout.decode().splitlines() if l.strip()]
+            if o and o[0].get("r") == "ok":
+                return o[0]["v"], o[0]["rr"]
+        except Exception:
+            pass
+        return None
+    with ThreadPoolExecutor(8) as ex:
+        res = list(ex.map(one, w["queries"]))
+    for q, r in zip(w["queries"], res):
+        if r is not None:
+            q["expectV"], q["expectR"] = r
+    return sum(1 for r in res if r is not None)
 
 
 def explore(chk, rnd, tier):
@@ -84,6 +119,8 @@ def explore(chk, rnd, tier):
     overlapped = 0
     for gmp in ([None] if tier == "quick" else [None, "2", "8"]):
         for w in workloads(rnd, tier):
+            if gmp is None or "expectV" not in w["queries"][0]:
+                chk.count("stand-alone-processes", alone_expectations(runner, w))
             env = dict(os.environ, GORACE="halt_on_error=0 exitcode=66", GOMEMLIMIT="4GiB")
             if gmp:
                 env["GOMAXPROCS"] = gmp
